@@ -6,9 +6,11 @@ cd "$(dirname "$0")/.."
 if ls spec/*.java >/dev/null 2>&1; then
   javac -cp /opt/veriftools/tla/tla2tools.jar -d spec spec/*.java
 fi
-for m in Masa MasaTrace MC_Registry MC_Names MasaAbi; do
+for m in Masa MasaTrace MC_Registry MC_Names MasaAbi MC_Oracle; do
   (cd spec && tla-sany $m.tla >/dev/null) || { echo "SANY failed on $m"; exit 1; }
 done
+# the oracle validates itself (MC_Oracle: reference values, hand derivatives, exact solutions, jump conditions)
+(cd spec && java -Xss256m -cp /opt/veriftools/tla/tla2tools.jar:/opt/veriftools/tla/CommunityModules-deps.jar:. tlc2.TLC -workers 1 -metadir "${TMPDIR:-/tmp}/masa-verif-cache/tlc-meta/setup$$" -config MC_Oracle.cfg MC_Oracle.tla > "${TMPDIR:-/tmp}/masa-verif-oracle.log" 2>&1; rm -rf "${TMPDIR:-/tmp}/masa-verif-cache/tlc-meta/setup$$"; grep -q "No error has been found" "${TMPDIR:-/tmp}/masa-verif-oracle.log") || { echo "MC_Oracle failed"; grep ORACLE "${TMPDIR:-/tmp}/masa-verif-oracle.log"; exit 1; }
 # library variants and drivers from /repo's working tree (cached; checks rebuild when sources change)
 python3 harness/mk.py driver exc >/dev/null
 python3 harness/mk.py driver exit >/dev/null
